@@ -1,6 +1,7 @@
 import AtreeModel
 import AtreeModel.Replay.Array
 import AtreeModel.Replay.Storage
+import AtreeModel.Replay.Health
 /-
   atree_model: replays a trace (stdin) on the Lean model and compares every line the
   implementation produced with the model's own rendering.
@@ -39,6 +40,12 @@ partial def loopStorage (h : IO.FS.Stream) (s : StorState) (n : Nat) : IO StorSt
   let line := (line.dropRightWhile (fun c => c == '\n' || c == '\r'))
   loopStorage h (s.stepLine line n) (n + 1)
 
+partial def loopHealth (h : IO.FS.Stream) (s : HealthState) (n : Nat) : IO HealthState := do
+  let line ← h.getLine
+  if line.isEmpty then return s
+  let line := (line.dropRightWhile (fun c => c == '\n' || c == '\r'))
+  loopHealth h (s.stepLine line n) (n + 1)
+
 def main (args : List String) : IO UInt32 := do
   let stdin ← IO.getStdin
   match args with
@@ -52,6 +59,11 @@ def main (args : List String) : IO UInt32 := do
     let s := if s.pending.isEmpty then s else s.note s!"end of trace: model expected further lines: {s.pending}"
     IO.println ("RESULT " ++ reportJson "storage" s.rep)
     return (if s.rep.nMismatch == 0 then 0 else 1)
+  | ["health"] =>
+    let s ← loopHealth stdin {} 1
+    let s := if s.pending.isEmpty then s else s.note s!"end of trace: model expected further lines: {s.pending}"
+    IO.println ("RESULT " ++ reportJson "health" s.rep)
+    return (if s.rep.nMismatch == 0 then 0 else 1)
   | _ =>
-    IO.eprintln "usage: atree_model <array|storage> < trace"
+    IO.eprintln "usage: atree_model <array|storage|health> < trace"
     return 2
